@@ -159,6 +159,21 @@ def part_recv(res, rng, driver, tier):
             else:
                 fname, args = rec["jobs"][0]
                 outs.append(args[0] if fname == "logic" and len(rec["jobs"]) == 1 and len(args) == 1 else ("?", fname, args))
+            # the mapping is a function of the delivery alone: the same delivery again (a command published
+            # twice, a node reporting an unchanged value, a poll repeated) is accepted or rejected the same way
+            first = list(rec["jobs"])
+            rec["jobs"].clear()
+            try:
+                gw.tasks.transport.recv(topic, payload, qos)
+            except Exception:  # noqa: BLE001   (reported above for the first delivery)
+                pass
+            if list(rec["jobs"]) != first:
+                res.oracle_failures.append({
+                    "key": {"kind": "mqtt-recv-depends-on-history", "case": name},
+                    "what": f"in_prefix={p!r}: {flavour} gateway, the delivery ({topic!r}, {payload!r}, qos {qos}) handed "
+                            f"{first!r} to the pump the first time and {list(rec['jobs'])!r} when delivered again",
+                    "replay": {"part": "recv", "prefix": p, "topic": topic, "payload": payload, "qos": qos, "twice": True}})
+            rec["jobs"].clear()
         if outs[0] != outs[1]:
             res.oracle_failures.append({"key": {"kind": "mqtt-recv-flavours-differ", "case": name},
                                         "what": f"async and sync MQTT gateways map {topic!r} differently",
@@ -543,6 +558,18 @@ def replay(payload):
         gw.tasks.transport.recv(r["topic"], r["payload"], r["qos"])
         got = rec["jobs"][0][1][0] if rec["jobs"] else None
         print("impl :", repr(got))
+        if r.get("twice"):
+            rc = 0
+            for flavour in ("async", "sync"):
+                gw2, rec2 = make_real(flavour, r["prefix"], "out")
+                outs = []
+                for _ in range(2):
+                    rec2["jobs"].clear()
+                    gw2.tasks.transport.recv(r["topic"], r["payload"], r["qos"])
+                    outs.append(list(rec2["jobs"]))
+                print(flavour, "first delivery:", outs[0], " second delivery:", outs[1])
+                rc = 1 if outs[0] != outs[1] else rc
+            return rc
         print("spec :", repr(spec_recv(r["prefix"], r["topic"], r["payload"], r["qos"])))
         q = "N" if r["qos"] is None else r["qos"]
         print("model:", drv.run([f"MQRECV {enc_str(r['prefix'])} {enc_str(r['topic'])} {enc_str(r['payload'])} {q}"]))
